@@ -408,11 +408,22 @@ ADXDx(di) ==
   ELSE IF IsZero(Add(di.p, di.n)) THEN AnyV
   ELSE QV(Div(Mul(Hundred, Abs(Sub(di.p, di.n))), Add(di.p, di.n)))
 
+\* when the up-move and the down-move are exactly equal (and positive) the float subtraction
+\* decides which of them counts: the three outcomes are all accepted
+ADXMoveAlts(cs, i) ==
+  LET j  == MaxI(1, i - 1)
+      up == Sub(cs[i].h, cs[j].h)
+      dn == Sub(cs[j].l, cs[i].l)
+      mv == ADXMoves(cs, i)
+  IN IF ~IsNaR(up) /\ up = dn /\ Gt(up, Zero) /\ "lookback_wraps" \notin Dev
+     THEN <<mv, [pos |-> up, neg |-> Zero], [pos |-> Zero, neg |-> dn]>>
+     ELSE <<mv>>
+
 FADXdata(s, cs, i) ==
-  LET mv == ADXMoves(cs, i)
+  LET ms == ADXMoveAlts(cs, i)
   IN IF ADXReady(s, cs, i)
-     THEN One1(DictV(<<"pos", "neg", "dx">>, <<QV(mv.pos), QV(mv.neg), ADXDx(ADXDI(s, cs, i))>>))
-     ELSE One1(DictV(<<"pos", "neg">>, <<QV(mv.pos), QV(mv.neg)>>))
+     THEN [q \in 1..Len(ms) |-> DictV(<<"pos", "neg", "dx">>, <<QV(ms[q].pos), QV(ms[q].neg), ADXDx(ADXDI(s, cs, i))>>)]
+     ELSE [q \in 1..Len(ms) |-> DictV(<<"pos", "neg">>, <<QV(ms[q].pos), QV(ms[q].neg)>>)]
 
 ADXKeys == <<"ADX", "DM_Plus", "DM_Neg">>
 FADX(s, cs, i) ==
